@@ -447,6 +447,10 @@ class ClientWorldObjectManager:
             # an explicit follow-up update?
             child_obj = region_state.lookup_localid(child_id)
             if child_obj and child_obj.PCode == PCode.AVATAR:
+                if not obj:
+                    # collect_orphans() took it out of the orphanage, but it's
+                    # still an orphan of this local ID
+                    region_state._track_orphan(child_id, local_id)
                 continue
             self._kill_object_by_local_id(region_state, child_id)
 
